@@ -93,6 +93,22 @@ func main() {
 		}
 		if f, err := r.Load("frac/sealed.go"); err != nil {
 			e.Missing("sealed.go", err)
+		} else if fd := f.Func("", "NewSealed"); fd == nil {
+			e.Missing("newSealedFastPath", "NewSealed not found")
+		} else {
+			// the condition under which a .frac-cache entry is trusted (the index header is not read)
+			cond := ""
+			for _, st := range fd.Body.List {
+				if x, ok := st.(*ast.IfStmt); ok && strings.Contains(f.Render(x.Cond), "info") && len(x.Body.List) == 1 {
+					if _, isRet := x.Body.List[0].(*ast.ReturnStmt); isRet && cond == "" {
+						cond = f.Render(x.Cond)
+					}
+				}
+			}
+			e.Str("newSealedFastPath", cond, "NewSealed: condition of the early return that trusts the cached Info")
+		}
+		if f, err := r.Load("frac/sealed.go"); err != nil {
+			e.Missing("sealed.go", err)
 		} else if fd := f.Func("Sealed", "Suicide"); fd == nil {
 			e.Missing("sealedSuicideOps", "Sealed.Suicide not found")
 		} else {
